@@ -146,6 +146,8 @@ def run(c):
     classes = ["grid_" + sc["dir_kind"], "layout_" + sc["layout"], "values_" + sc["values"]]
     if sc.get("history"):
         classes.append("object_modified_in_place_after_earlier_queries")
+    if sc.get("memory"):
+        classes.append("stored_arrays_" + sc["memory"] + "_layout")
     if sc.get("dtype"):
         classes.append("density_stored_as_" + sc["dtype"])
     if sc["roll"]:
